@@ -127,8 +127,9 @@ type conn struct {
 	channelsClosed  atomic.Bool
 	channelsReached atomic.Bool // number of channels reached the target number, notify delegate once
 
-	// closed listeners
-	closedListeners   asyncmap.AtomicMap[int64, func()]
+	// closed listeners, not a lock-free asyncmap.AtomicMap: its Range can skip a bucket
+	// while another key of that bucket is set or deleted, and a listener would never be called.
+	closedListeners   asyncmap.Map[int64, func()]
 	closedListenerSeq atomic.Int64
 }
 
@@ -156,7 +157,7 @@ func newConn(
 		writeq: bytequeue.NewCap(int(opts.WriteQueueSize)),
 
 		channels:        asyncmap.NewShardedMap[bin.Bin128, internalChannel](),
-		closedListeners: asyncmap.NewAtomicMap[int64, func()](),
+		closedListeners: asyncmap.NewSyncMap[int64, func()](),
 	}
 	c.ctx = newConnContext(c)
 	return c
